@@ -786,6 +786,27 @@ func genBody(r *RNG, o genOpts) (body []string, hasEqu, hasGlobal bool) {
 	g.labels = known // all labels are referable (forward references included)
 	for i := 0; i < o.NStmts; i++ {
 		remaining := o.NStmts - i
+		if r.Chance(1, 40) { // a configuration directive in the middle of the code, possibly repeated
+			body = append(body, pick(r, []string{"[SECTION .data]", "[SECTION .bss]", "[SECTION .text]", "[BITS 16]", "[BITS 32]", "[ABSOLUTE 0x100]", "[OPTIMIZE 1]", "[PADDING 2]", `[FILE "second.nas"]`, `[INSTRSET "i386"]`, `[FORMAT "BIN"]`}))
+		}
+		if r.Chance(1, 40) { // EQUs over the location counter and over label differences, defined mid-program
+			n := strings.ToUpper(g.newName())
+			g.used[n] = true
+			v := "$"
+			switch r.Intn(3) {
+			case 0:
+				if len(g.labels) > 0 {
+					v = "$-" + pick(r, g.labels)
+				}
+			case 1:
+				if len(g.equs) > 1 {
+					v = pick(r, g.equs) + "+" + pick(r, g.equs) + "*2-1"
+				}
+			}
+			body = append(body, n+"\tEQU\t"+v)
+			g.equs = append(g.equs, n)
+			hasEqu = true
+		}
 		for len(pending) > 0 && (r.Intn(remaining+1) < len(pending)) {
 			body = append(body, pending[0]+":")
 			pending = pending[1:]
